@@ -20,4 +20,8 @@ def obligations(ctx, cfg):
     from props.C08 import PublishStep
     ns, kb = (3, 2) if q else (4, 3)
     obs.append(PublishStep(ctx, ns, kb, id_='C01.c-publish-fanout'))
+    from props.C10 import PublishHandler
+    ph = PublishHandler(ctx)
+    ph.id = 'C01.d-publish-handler'
+    obs.append(ph)
     return obs
